@@ -631,13 +631,28 @@ func (s *Sim) genOpOf(kind string) (Op, bool) {
 				if o.Type.String() != "PLACEHOLDER_REPLACED" {
 					continue
 				}
+				inflight := ""
+				if s.post != nil {
+					if a := s.post.Apps[o.App]; a != nil && a.Allocs[o.Key] != nil {
+						inflight = a.Allocs[o.Key].ReleaseKey
+					}
+				}
 				for _, m := range sh.appAllocs(o.App) {
 					if m.Status == stBound && !m.Placeholder {
+						cands = append(cands, Op{Kind: "release", Key: m.Key, AppID: m.App, Type: "STOPPED_BY_RM", Fault: "swap_race"})
+					}
+					// everything else the application still waits for goes as well: with the in-flight half as its only
+					// work left the application turns Completing under the replacement
+					if m.Status == stPending && !m.Placeholder && m.Key != inflight && inflight != "" {
 						cands = append(cands, Op{Kind: "release", Key: m.Key, AppID: m.App, Type: "STOPPED_BY_RM", Fault: "swap_race"})
 					}
 				}
 				if ph := sh.Allocs[o.Key]; ph != nil && ph.Node != "" && len(sh.liveNodeIDs()) > 1 {
 					cands = append(cands, Op{Kind: "node_remove", Node: ph.Node, Fault: "swap_race"})
+				}
+				if inflight != "" {
+					// the application finishes everything else while the replacement waits for its confirmation
+					cands = append(cands, Op{Kind: "complete", AppID: o.App, Key: inflight, Fault: "swap_race"}, Op{Kind: "complete", AppID: o.App, Key: inflight, Fault: "swap_race"})
 				}
 			}
 			if len(cands) == 0 {
